@@ -12,21 +12,36 @@
   loops re-run for a message *inside* a file: preceded by the newline of the header, followed by the
   newline and the '/' of the next message — C10's theorems are about a text scanned to its end, their
   building blocks `ArgOK` / `PrintsArg` / `printLoop_spec_args` / the token theorems `printsTok_*`
-  hold for any continuation) and Proofs/SaveText.lean.
+  hold for any continuation), Proofs/SaveTextRunsMsg.lean (the same for an array line with compressed
+  runs, from C10's `printLoop_asegs` / `scanArgVal_arrSegs` / `skipNext_arrSegs`),
+  Proofs/SaveTextExpand.lean (the dispatch loop's iterator, C16's `ArgVal.iterate`, expands the
+  scanned repetition and range blocks to the saved values), Proofs/SaveTextCut.lean (how the printer
+  cuts an array into segments: `CutOK`, the decision procedure `cutOf`, criteria on the values) and
+  Proofs/SaveText.lean.
 
   What is covered (`LineTextOK`, `ValTextOK`): scalar ports of every kind — int (`rParamI`, every
   int32), char (`rParam`: NUL, 7..13, 32..126), float (`rParamF`: every finite value, printed lossless
   `0.10 (0x1.99999ap-4)`), toggle, option (symbol or int), string (`rString`: printable bytes and C
   escapes: quotes, backslashes, '%', tabs, newlines with their continuation lines) — and array ports
-  whose printed elements contain no five consecutive values of one type tag (the printer compresses
-  runs `[5x7]` / `[1 ... 6]` from five values on, and C10 has no theorem for runs inside arrays):
-  up to four printed elements for int/char/float/option/string arrays, any length for toggle arrays
-  without five equal neighbours.  Not covered: ±infinity and NaN (C12-K9: +infinity does not load,
-  `posinf_text_counterexample`), chars 1..6, 14..31, 127, bytes outside 7..13 / 32..126 in strings
-  and symbols, ints outside int32 (no OSC message carries them), longer arrays.
+  of any length whose elements the printer cuts into plain values, constant runs of five or more
+  equal values (`[5x7]`, `[6x0.50 (0x1p-1)]`, `[5xtrue 6xfalse]`, option symbols, strings) and int32
+  arithmetic runs of five or more values (`[1 ... 6]`, `[3 5 ... 13]`), in any number and order
+  (`ArrCutOK`: the answers of `rtosc_convert_to_range` on the elements left in the array; decided for
+  a concrete array by `cutOf` — `arrCutOK_of_cutOf` —, derived from the values by
+  `SegStep.tok_of_short` / `SegStep.crun_of_next` / `SegStep.irun_of_next`; the former clause "no five
+  consecutive elements of one type tag" is the instance `arrCutOK_of_noLongRun`).  The scanner
+  returns repetition and range blocks for the runs; the theorems include their expansion by the
+  iterator of `dispatch_printed_messages`.  Not covered: ±infinity and NaN (C12-K9: +infinity does
+  not load, `posinf_text_counterexample`), chars 1..6, 14..31, 127, bytes outside 7..13 / 32..126 in
+  strings and symbols, ints outside int32 (no OSC message carries them), an arithmetic run of five
+  or more chars inside an array (`['a' ... 'f']`: C10's run segments are int32 only; no savefile has
+  arrays of 'h' values or nested arrays).
 -/
 import RtoscModel.Props.C12
 import RtoscModel.Proofs.SaveText
+import RtoscModel.Proofs.SaveTextCrit
+import RtoscModel.Proofs.SaveTextTotal
+import RtoscModel.Proofs.SaveExampleRuns
 namespace Rtosc.C12
 open Rtosc Rtosc.Save Rtosc.Save.Text Rtosc.Libc Rtosc.Pretty
 
@@ -35,7 +50,10 @@ open Rtosc Rtosc.Save Rtosc.Save.Text Rtosc.Libc Rtosc.Pretty
     `lead` (the newline that ends the header), in front of `tl` = nothing or the newline and the '/' of
     the next message — `rtosc_count_printed_arg_vals_of_msg` counts its argument values,
     `rtosc_scan_message` consumes exactly the white space, the text and the newline, and returns the
-    line's address and values. -/
+    line's address and values.  For an array line with compressed runs `cells` holds the repetition
+    and range blocks the scanner writes (`[5x7 1 ... 6]`: `- 5 7 - 6 1 1` in cells);
+    `argsOfCells` is what the dispatch loop takes out of them with `rtosc_arg_val_itr`: the saved
+    elements. -/
 theorem saved_line_scans_back (l : Line) (h : LineTextOK l) :
     ∃ (t : Bytes) (cells : List ArgVal.Cell), lineText l = .ok t ∧
       ∀ (lead tl : Bytes), (∀ c ∈ lead, isspace c = true) → lead.length ≤ 1 → MsgTail tl →
@@ -44,12 +62,13 @@ theorem saved_line_scans_back (l : Line) (h : LineTextOK l) :
           .ok (lead.length + t.length + wsLen tl, pathBytes l.addr, cells) ∧
         bytesPath (pathBytes l.addr) = l.addr ∧ argsOfCells cells = .ok l.args := by
   obtain ⟨t, ht, hs⟩ := lineText_msgText l h
-  refine ⟨t, (groupsOf l.args).flatten, ht, ?_⟩
+  obtain ⟨cells, hsc, hback⟩ := hs.scans
+  refine ⟨t, cells, ht, ?_⟩
   intro lead tl hlead hl1 htl
   have hal : lead.length + (pathBytes l.addr).length < nameBufSize := by
     have := hs.addr_len; omega
-  obtain ⟨h1, h2⟩ := hs.msg.scans lead hlead htl nameBufSize hal
-  exact ⟨h1, h2, hs.addr_back, hs.back⟩
+  obtain ⟨h1, h2⟩ := hsc.2 lead hlead tl htl nameBufSize hal
+  exact ⟨h1, h2, hs.addr_back, hback⟩
 
 /-- the line alone (C10's `message_roundtrip` shape): the whole text is consumed -/
 theorem saved_line_roundtrip (l : Line) (h : LineTextOK l) :
@@ -112,6 +131,194 @@ theorem valTextOK_by_kind :
   · intro names i h
     simp only [mapArgVal, h, ↓reduceIte]
     exact Iff.rfl
+
+/-! ### which array lines are covered (`ArrCutOK`), from the values -/
+
+theorem typesMatch_self (a : UInt8) : typesMatch a a = true := by simp [typesMatch]
+
+/-- **array_line_decided** ("the savefile produced for it": array ports, any length): an array line of
+    covered values of one type is covered when the decision procedure `arrCutB` accepts its elements:
+    the model of `rtosc_convert_to_range`, run position by position on the elements left in the array as
+    the printer's array loop does, answers "nothing", "a constant run" or "an int32 arithmetic run
+    within C10's overflow guards" every time (each answer is checked against the elements).  It rejects
+    exactly the other answers: an arithmetic run of chars. -/
+theorem array_line_decided (addr : Path) (ha : AddrTextOK addr) (vs : List Val) (hne : vs ≠ [])
+    (hv : ∀ v ∈ vs, ValTextOK v)
+    (hty : ∀ v ∈ vs, typesMatch ((vs.map cellOfVal).headD (ArgVal.Cell.flag .N)).type (cellOfVal v).type = true)
+    (h : arrCutB vs = true) : LineTextOK ⟨addr, .arr vs⟩ :=
+  ⟨ha, hne, hv, hty, arrCutOK_of_arrCutB vs h⟩
+
+/-- **array_line_no_long_run**: the lines covered before runs inside arrays were proved — no five
+    consecutive elements of one type tag — are an instance (every element is printed as it is) -/
+theorem array_line_no_long_run (addr : Path) (ha : AddrTextOK addr) (vs : List Val) (hne : vs ≠ [])
+    (hv : ∀ v ∈ vs, ValTextOK v)
+    (hty : ∀ v ∈ vs, typesMatch ((vs.map cellOfVal).headD (ArgVal.Cell.flag .N)).type (cellOfVal v).type = true)
+    (h : NoLongRun (vs.map cellOfVal)) : LineTextOK ⟨addr, .arr vs⟩ :=
+  ⟨ha, hne, hv, hty, _, arrCutOK_of_noLongRun vs h⟩
+
+/-- **array_line_constant**: an array of `n ≥ 5` equal elements — any covered value: int, char, finite
+    float, toggle, option symbol, string — of any length (up to 2^31-1, the range of the repetition
+    count), printed `[nxv]` -/
+theorem array_line_constant (addr : Path) (ha : AddrTextOK addr) (n : Nat) (v : Val) (hv : ValTextOK v)
+    (h5 : 5 ≤ n) (h2 : n ≤ 2147483647) : LineTextOK ⟨addr, .arr (List.replicate n v)⟩ := by
+  refine ⟨ha, ?_, ?_, ?_, _, arrCutOK_const n v hv h5 h2⟩
+  · intro h
+    have := congrArg List.length h
+    simp at this; omega
+  · intro w hw
+    rw [(List.mem_replicate.mp hw).2]; exact hv
+  · intro w hw
+    rw [(List.mem_replicate.mp hw).2]
+    obtain ⟨m, rfl⟩ : ∃ m, n = m + 1 := ⟨n - 1, by omega⟩
+    simp [List.replicate_succ, typesMatch_self]
+
+/-- **array_line_arithmetic**: an int array that is one arithmetic run `a, a+d, …` of `n ≥ 5` elements
+    within C10's guards (`RunHyp`: `d ≠ 0`, the elements and the value behind the last one in int32
+    range, `(n-1)·|d| < 2^31`, `n < 2^31`), of any length, printed `[a ... z]` or `[a b ... z]` -/
+theorem array_line_arithmetic (addr : Path) (ha : AddrTextOK addr) (a d : Int) (n : Nat) (hr : RunHyp a d n) :
+    LineTextOK ⟨addr, .arr (arithVals a d n)⟩ := by
+  have hn := hr.hn
+  refine ⟨ha, ?_, ?_, ?_, _, arrCutOK_arith hr⟩
+  · intro h
+    have := congrArg List.length h
+    simp [arithVals] at this; omega
+  · intro w hw
+    simp only [arithVals, List.mem_map, List.mem_range] at hw
+    obtain ⟨k, hk, rfl⟩ := hw
+    exact hr.hrange k (by omega)
+  · intro w hw
+    simp only [arithVals, List.mem_map, List.mem_range] at hw
+    obtain ⟨k, hk, rfl⟩ := hw
+    obtain ⟨m, rfl⟩ : ∃ m, n = m + 1 := ⟨n - 1, by omega⟩
+    simp only [arithVals, List.range_succ_eq_map, cellOfVal, List.map_cons, List.headD_cons]
+    exact typesMatch_self _
+
+/-- **array_cut_extends**: how `ArrCutOK` is derived from the values, element group by element group
+    from the right, for arrays of any length: in front of a covered rest `vs`, (1) a value followed by
+    fewer than five cells of its type in what is left of the array is printed as it is; (2) `n ≥ 5`
+    equal covered values are a constant run when the element behind them is not identical to them
+    (`range_args_identical`); (3) an int32 arithmetic run within C10's guards is one segment when the
+    element behind it does not continue it. -/
+theorem array_cut_extends (vs : List Val) (body : List RSeg) (h : ArrCutOK vs body) :
+    (∀ v, shortRun (cellOfVal v :: vs.map cellOfVal) = true → ArrCutOK (v :: vs) (.tok (cellOfVal v) :: body)) ∧
+    (∀ n v, ValTextOK v → 5 ≤ n → n ≤ 2147483647 →
+      (vs = [] ∨ ∀ more, rangeArgsIdentical (cellOfVal v :: more) (vs.map cellOfVal) = .ok false) →
+      ArrCutOK (List.replicate n v ++ vs) (.crun n (cellOfVal v) :: body)) ∧
+    (∀ a d n, RunHyp a d n →
+      (vs = [] ∨ eqSingle [ArgVal.Cell.int .i (a + (n : Int) * d)] (vs.map cellOfVal) = .ok false) →
+      ArrCutOK (arithVals a d n ++ vs) (.irun a d n :: body)) :=
+  ⟨fun v hs => h.cons_tok v hs, fun n v hv h5 h2 hn => h.cons_crun n v hv h5 h2 hn,
+    fun _ _ _ hr hn => h.cons_irun hr hn⟩
+
+/-! ### kinds whose array lines are covered whatever they hold -/
+
+/-- **array_line_floats** (`rArrayF`): EVERY non-empty array of finite floats, of any length below
+    2^31 and any content, is a covered line: `rtosc_convert_to_range` never makes an arithmetic run of
+    floats, so the printer's segments are the maximal runs of five or more bit-identical values and
+    plain values (`cutC`) -/
+theorem array_line_floats (addr : Path) (ha : AddrTextOK addr) (bs : List UInt32) (hne : bs ≠ [])
+    (hfin : ∀ b ∈ bs, f32.expField b.toNat ≠ 255) (hlen : bs.length ≤ 2147483647) :
+    LineTextOK ⟨addr, .arr (bs.map Val.flt)⟩ := by
+  refine ⟨ha, by simpa using hne, ?_, ?_, _, arrCutOK_floats bs hfin hlen⟩
+  · intro v hv
+    obtain ⟨b, hb, rfl⟩ := List.mem_map.mp hv
+    exact hfin b hb
+  · intro v hv
+    obtain ⟨b, hb, rfl⟩ := List.mem_map.mp hv
+    obtain ⟨b0, r, rfl⟩ := List.exists_cons_of_ne_nil hne
+    exact typesMatch_self _
+
+/-- **array_line_toggles** (`rArrayT`): EVERY non-empty toggle array, of any length below 2^31: runs of
+    five or more equal toggles are printed `nxtrue` / `nxfalse`, everything else as it is (a toggle in
+    front of a different one has another type tag: `rtosc_convert_to_range` counts a single cell) -/
+theorem array_line_toggles (addr : Path) (ha : AddrTextOK addr) (bs : List Bool) (hne : bs ≠ [])
+    (hlen : bs.length ≤ 2147483647) : LineTextOK ⟨addr, .arr (bs.map Val.bool)⟩ := by
+  refine ⟨ha, by simpa using hne, ?_, ?_, _, arrCutOK_toggles bs hlen⟩
+  · intro v hv
+    obtain ⟨b, hb, rfl⟩ := List.mem_map.mp hv
+    trivial
+  · intro v hv
+    obtain ⟨b, hb, rfl⟩ := List.mem_map.mp hv
+    obtain ⟨b0, r, rfl⟩ := List.exists_cons_of_ne_nil hne
+    cases b0 <;> cases b <;> rfl
+
+/-- **array_line_strings**: EVERY non-empty array of strings of covered bytes, of any length below 2^31 -/
+theorem array_line_strings (addr : Path) (ha : AddrTextOK addr) (ss : List Bytes) (hne : ss ≠ [])
+    (hok : ∀ s ∈ ss, ∀ b ∈ s, StrByteOK b) (hlen : ss.length ≤ 2147483647) :
+    LineTextOK ⟨addr, .arr (ss.map Val.str)⟩ := by
+  refine ⟨ha, by simpa using hne, ?_, ?_, _, arrCutOK_strs ss hok hlen⟩
+  · intro v hv
+    obtain ⟨b, hb, rfl⟩ := List.mem_map.mp hv
+    exact hok b hb
+  · intro v hv
+    obtain ⟨b, hb, rfl⟩ := List.mem_map.mp hv
+    obtain ⟨b0, r, rfl⟩ := List.exists_cons_of_ne_nil hne
+    exact typesMatch_self _
+
+/-- **array_line_symbols** (arrays of `rOption` values printed as symbols): EVERY non-empty array of
+    symbols of covered characters, of any length below 2^31 -/
+theorem array_line_symbols (addr : Path) (ha : AddrTextOK addr) (ps : List Path) (hne : ps ≠ [])
+    (hok : ∀ p ∈ ps, ∀ c ∈ p, CharByte c ∧ StrByteOK (byteOfChar c)) (hlen : ps.length ≤ 2147483647) :
+    LineTextOK ⟨addr, .arr (ps.map Val.sym)⟩ := by
+  refine ⟨ha, by simpa using hne, ?_, ?_, _, arrCutOK_syms ps hok hlen⟩
+  · intro v hv
+    obtain ⟨b, hb, rfl⟩ := List.mem_map.mp hv
+    exact hok b hb
+  · intro v hv
+    obtain ⟨b, hb, rfl⟩ := List.mem_map.mp hv
+    obtain ⟨b0, r, rfl⟩ := List.exists_cons_of_ne_nil hne
+    exact typesMatch_self _
+
+/-- a float value is handed to the printer as it is, whatever the kind of the port (only option ports map
+    ints to symbols) -/
+theorem mapArgVal_flt (k : Kind) (b : UInt32) : mapArgVal k (.flt b) = .flt b := by
+  cases k <;> rfl
+
+theorem mapArgVal_bool (k : Kind) (b : Bool) : mapArgVal k (.bool b) = .bool b := by
+  cases k <;> rfl
+
+/-- **float_array_port_ok**: the condition `ItemTextOK` of `load_save_restores_text_ports` for an array
+    port holding floats (`rArrayF`) is just: the address is a text address and every element is finite -/
+theorem float_array_port_ok (app : App) (s : State) (base : Path) (first len : Nat) (ha : AddrTextOK base)
+    (hlen : len ≤ 2147483647) (bits : Nat → UInt32)
+    (hk : ∀ k, k < len → s (first + k) = .flt (bits k) ∧ f32.expField (bits k).toNat ≠ 255) :
+    ItemTextOK app s (.array base first len) := by
+  refine ⟨ha, ?_⟩
+  intro n h0 hn
+  have hlist : ((List.range n).map fun k => mapArgVal (app.param (first + k)).kind (s (first + k))) =
+      ((List.range n).map bits).map Val.flt := by
+    rw [List.map_map]
+    apply List.map_congr_left
+    intro k hk'
+    have hkn : k < n := List.mem_range.mp hk'
+    simp only [Function.comp, (hk k (by omega)).1, mapArgVal_flt]
+  rw [hlist]
+  refine array_line_floats base ha _ ?_ ?_ (by simp; omega)
+  · intro h
+    have := congrArg List.length h
+    simp at this; omega
+  · intro b hb
+    obtain ⟨k, hk', rfl⟩ := List.mem_map.mp hb
+    exact (hk k (by have := List.mem_range.mp hk'; omega)).2
+
+/-- **toggle_array_port_ok**: an array port holding toggles (`rArrayT`) needs a text address only -/
+theorem toggle_array_port_ok (app : App) (s : State) (base : Path) (first len : Nat) (ha : AddrTextOK base)
+    (hlen : len ≤ 2147483647) (tog : Nat → Bool) (hk : ∀ k, k < len → s (first + k) = .bool (tog k)) :
+    ItemTextOK app s (.array base first len) := by
+  refine ⟨ha, ?_⟩
+  intro n h0 hn
+  have hlist : ((List.range n).map fun k => mapArgVal (app.param (first + k)).kind (s (first + k))) =
+      ((List.range n).map tog).map Val.bool := by
+    rw [List.map_map]
+    apply List.map_congr_left
+    intro k hk'
+    have hkn : k < n := List.mem_range.mp hk'
+    simp only [Function.comp, hk k (by omega), mapArgVal_bool]
+  rw [hlist]
+  refine array_line_toggles base ha _ ?_ (by simp; omega)
+  intro h
+  have := congrArg List.length h
+  simp at this; omega
 
 /-! ### the file -/
 
@@ -213,17 +420,122 @@ example : LineTextOK exStrLine :=
     exact this⟩
 
 example : LineTextOK exArrLine := by
-  refine ⟨⟨rfl, by decide, by decide⟩, by simp, ?_, ?_, ?_⟩
+  refine ⟨⟨rfl, by decide, by decide⟩, by simp, ?_, ?_, arrCutOK_of_arrCutB _ (by decide +kernel)⟩
   · intro v hv
     simp only [List.mem_cons, List.not_mem_nil, or_false] at hv
     rcases hv with rfl | rfl | rfl <;> (show f32.expField _ ≠ 255; decide +kernel)
   · intro v hv
     simp only [List.mem_cons, List.not_mem_nil, or_false] at hv
     rcases hv with rfl | rfl | rfl <;> rfl
-  · intro i hi
-    have h : ∀ i : Fin 3, shortRun (([.flt 0x3f000000, .flt 0xbdcccccd, .flt 0x00000001] : List Val).map cellOfVal |>.drop i.val) = true := by
-      decide +kernel
-    exact h ⟨i, by simpa using hi⟩
+
+/-! ### array lines with compressed runs -/
+
+/-- an int array whose elements the printer cuts into two values, a constant run, an arithmetic
+    run and a value; a float array with a constant run; a toggle array of two constant runs -/
+def exRunLine : Line := ⟨"/steps".toList, .arr [.int 1, .int 2, .int 0, .int 0, .int 0, .int 0, .int 0, .int 0,
+  .int 3, .int 5, .int 7, .int 9, .int 11, .int 13, .int 13]⟩
+def exFltRunLine : Line := ⟨"/gains".toList, .arr [.flt 0x3f000000, .flt 0x3f000000, .flt 0x3f000000, .flt 0x3f000000,
+  .flt 0x3f000000, .flt 0x3f000000, .flt 0]⟩
+def exTogRunLine : Line := ⟨"/mute".toList, .arr [.bool true, .bool true, .bool true, .bool true, .bool true,
+  .bool false, .bool false, .bool false, .bool false, .bool false, .bool false]⟩
+
+example : lineText exRunLine = .ok (lit "/steps [1 2 6x0 3 5 ... 13 13]") := by decide +kernel
+example : lineText exFltRunLine = .ok (lit "/gains [6x0.50 (0x1p-1) 0.00 (0x0p+0)]") := by decide +kernel
+example : lineText exTogRunLine = .ok (lit "/mute [5xtrue 6xfalse]") := by decide +kernel
+
+/-- the printer's segments of the int array: `1`, `2`, `6x0`, `3 5 ... 13`, `13` -/
+example : ArrCutOK [.int 1, .int 2, .int 0, .int 0, .int 0, .int 0, .int 0, .int 0,
+    .int 3, .int 5, .int 7, .int 9, .int 11, .int 13, .int 13]
+    [.tok (.int .i 1), .tok (.int .i 2), .crun 6 (.int .i 0), .irun 3 2 6, .tok (.int .i 13)] :=
+  arrCutOK_of_cutOf _ _ (by decide +kernel)
+
+theorem exRunLine_ok : LineTextOK exRunLine := by
+  refine ⟨⟨rfl, by decide, by decide⟩, by simp, ?_, ?_, arrCutOK_of_arrCutB _ (by decide +kernel)⟩
+  · intro v hv
+    simp only [List.mem_cons, List.not_mem_nil, or_false] at hv
+    rcases hv with rfl | rfl | rfl | rfl | rfl | rfl | rfl | rfl | rfl | rfl | rfl | rfl | rfl | rfl | rfl <;>
+      (unfold ValTextOK; decide)
+  · decide
+
+theorem exFltRunLine_ok : LineTextOK exFltRunLine := by
+  refine ⟨⟨rfl, by decide, by decide⟩, by simp, ?_, ?_, arrCutOK_of_arrCutB _ (by decide +kernel)⟩
+  · have : ∀ v ∈ ([.flt 0x3f000000, .flt 0x3f000000, .flt 0x3f000000, .flt 0x3f000000,
+        .flt 0x3f000000, .flt 0x3f000000, .flt 0] : List Val), v = .flt 0x3f000000 ∨ v = .flt 0 := by decide
+    intro v hv
+    rcases this v hv with rfl | rfl <;> (show f32.expField _ ≠ 255; decide +kernel)
+  · decide
+
+theorem exTogRunLine_ok : LineTextOK exTogRunLine := by
+  refine ⟨⟨rfl, by decide, by decide⟩, by simp, ?_, ?_, arrCutOK_of_arrCutB _ (by decide +kernel)⟩
+  · have : ∀ v ∈ ([.bool true, .bool true, .bool true, .bool true, .bool true,
+        .bool false, .bool false, .bool false, .bool false, .bool false, .bool false] : List Val), ∃ b, v = .bool b := by
+      decide
+    intro v hv
+    obtain ⟨b, rfl⟩ := this v hv
+    trivial
+  · decide
+
+/-- the line with runs through the text stages: the scanner returns the array block
+    below (nine cells behind the header: two values, the repetition block `6x0`, the value 3, the range
+    block "five values from 5 with step 2", the value 13), the dispatch loop's iterator expands it to
+    the fifteen saved elements -/
+example : ∃ (t : Bytes) (cells : List ArgVal.Cell), lineText exRunLine = .ok t ∧
+    countPrintedArgValsOfMsg t = .ok (cells.length : Int) ∧
+    scanMessage t nameBufSize cells.length = .ok (t.length, pathBytes exRunLine.addr, cells) ∧
+    bytesPath (pathBytes exRunLine.addr) = exRunLine.addr ∧ argsOfCells cells = .ok exRunLine.args :=
+  saved_line_roundtrip exRunLine exRunLine_ok
+
+example : scanMessage (lit "/steps [1 2 6x0 3 5 ... 13 13]") nameBufSize 10 =
+    .ok (30, lit "/steps", [.arr 105 9, .int .i 1, .int .i 2, .rep 6 0, .int .i 0, .int .i 3, .rep 5 1, .int .i 2,
+      .int .i 5, .int .i 13]) := by decide +kernel
+
+/-- arrays of any length: a thousand equal floats `[1000x0.50 (0x1p-1)]`, the ints 0, 3, …, 29997 `[0 3 ... 29997]` -/
+example : LineTextOK ⟨"/gains".toList, .arr (List.replicate 1000 (.flt 0x3f000000))⟩ :=
+  array_line_constant _ ⟨rfl, by decide, by decide⟩ 1000 _ (by show f32.expField _ ≠ 255; decide +kernel) (by decide)
+    (by decide)
+
+example : LineTextOK ⟨"/steps".toList, .arr (arithVals 0 3 10000)⟩ :=
+  array_line_arithmetic _ ⟨rfl, by decide, by decide⟩ 0 3 10000
+    ⟨by decide, by decide, fun k hk => by omega, by decide, by decide⟩
+
+/-- float and toggle arrays need no condition beyond finiteness -/
+example : LineTextOK exFltRunLine :=
+  array_line_floats _ ⟨rfl, by decide, by decide⟩ [0x3f000000, 0x3f000000, 0x3f000000, 0x3f000000, 0x3f000000, 0x3f000000, 0]
+    (by simp) (by
+      intro b hb
+      simp only [List.mem_cons, List.not_mem_nil, or_false] at hb
+      rcases hb with rfl | rfl | rfl | rfl | rfl | rfl | rfl <;> decide +kernel) (by decide)
+
+example : LineTextOK exTogRunLine :=
+  array_line_toggles _ ⟨rfl, by decide, by decide⟩ [true, true, true, true, true, false, false, false, false, false, false]
+    (by simp) (by decide)
+
+/-! ### a whole file with a compressed array line -/
+
+open Rtosc.Save.RunsExample in
+/-- the array application of Proofs/SaveExampleRuns.lean (`/a#6`, five elements set to 7, the last to 1):
+    its file is `/a [5x7 1]` behind the header -/
+example : rApp.saveText (0, 3, 1) (1, 2, 3) rState = .ok (lit "% RT OSC v0.3.1 savefile\n% runs v1.2.3\n/a [5x7 1]") := by
+  decide +kernel
+
+open Rtosc.Save.RunsExample in
+theorem runs_lines_ok : ∀ l ∈ rApp.save rState, LineTextOK l := by
+  rw [r_save]
+  intro l hl
+  simp only [List.mem_cons, List.not_mem_nil, or_false] at hl
+  subst hl
+  refine array_line_decided _ ⟨rfl, by decide, by decide⟩ _ (by simp) ?_ (by decide) (by decide +kernel)
+  intro v hv
+  simp only [List.mem_cons, List.not_mem_nil, or_false] at hv
+  rcases hv with rfl | rfl | rfl | rfl | rfl | rfl <;> (unfold ValTextOK; decide)
+
+open Rtosc.Save.RunsExample in
+/-- `load_from_file` on that text — the scanner returns the block `5x7` and the value 1, the dispatch
+    loop expands them — restores the six elements and reports one message -/
+example : ∃ text, rApp.saveText (0, 3, 1) (1, 2, 3) rState = .ok text ∧
+    rApp.loadText text rApp.init = .ok (.ok rState 1) :=
+  load_save_restores_text_partial rApp r_wf r_covers r_ranked _ _ rfl rfl ⟨by decide, by decide, by decide⟩
+    rState ⟨_, rfl⟩ runs_lines_ok
 
 /-! ### known finding C12-K9 at the text level -/
 
